@@ -401,3 +401,36 @@ def ctors_keep_args(ctx, rr, side):
         else:
             rr.ok("%s keeps its arguments" % shortfn(fn))
     return n
+
+
+_ACC_CONV = ("clone", "as_ref", "as_str", "to_owned", "copied", "as_deref", "to_string", "as_slice", "borrow", "deref", "cloned")
+
+
+def accessors_return_field(ctx, rr, owners):
+    """a method `T::f(&self)` of a record type with a field `f` returns that field (as it is, or through clone / as_ref / ...): callers
+    rely on it for what was signed, stored or just set — e.g. `with_signature(..)` followed by `signature().unwrap()`"""
+    P = ctx.prog
+    n = 0
+    for bid, b in sorted(P.bodies.items()):
+        if b.kind != "method" or b.argc != 1 or "::tests" in bid:
+            continue
+        owner, last = bid.rsplit("::", 1)
+        if owner not in owners:
+            continue
+        adt = P.adts.get(owner)
+        if not adt or adt["kind"] != "struct" or last not in [f["name"] for f in adt["variants"][0]["fields"]]:
+            continue
+        t = og.strip(ctx.og.local(b, 0))
+        while isinstance(t, tuple) and t and t[0] in ("call", "ret"):
+            args = t[2] if t[0] == "call" else (t[4] if len(t) > 4 and isinstance(t[4], tuple) else ())
+            if len(args) == 1 and t[1].split("::")[-1] in _ACC_CONV:
+                t = og.strip(args[0])
+            else:
+                break
+        ok = isinstance(t, tuple) and t and t[0] == "proj" and og.strip(t[1]) == ("param", b.id, 1) and [e for e in t[2] if isinstance(e, str) and e.startswith("f:")][-1:] == ["f:" + last]
+        n += 1
+        if ok:
+            rr.ok("%s returns the field" % shortfn(bid))
+        else:
+            rr.fail("accessor-alters-field:%s" % shortfn(bid), "`%s` does not return the `%s` field as it is (%s): callers that set or signed the field and read it back through the accessor see something else" % (shortfn(bid), last, og.show(ctx.og.local(b, 0))[:70]), where=b.span)
+    return n
